@@ -12,8 +12,10 @@ from harness import vt  # noqa: E402
 
 CONN_SCRIPTS = [{}, {'eod': 450}, {'mail': 550}, {'data': 'disconnect'}, {'eod': 'stall'}, {'banner': 421}, {'rcpt': [550, 550, 550]},
                 {'eod': {0: 450}}, {'eod': {0: 'disconnect'}}, {'mail': {1: 'disconnect'}}, {'data': {0: 554}}, {'rset': 'disconnect', 'mail': {0: 550}},
-                {'ehlo': 'malformed'}, {'mail': {0: 450, 1: 250}}]
-SCHEDULES = ['cccc', 'cscsc', 'ccsac', 'csacsc', 'cacac', 'ccascc', 'csssc', 'cccsaac']
+                {'ehlo': 'malformed'}, {'mail': {0: 450, 1: 250}},
+                {'data': {0: 554}, 'mail': {1: 'disconnect'}}, {'rcpt': {0: 550}, 'eod': {1: 'disconnect'}}, {'data': {0: 554}, 'rcpt': {1: 'disconnect'}},
+                {'eod': {0: 550}, 'data': {1: 'malformed'}}]
+SCHEDULES = ['cscscsc', 'cscsc', 'cccc', 'cscsc', 'ccsac', 'csacsc', 'cacac', 'ccascc', 'csssc', 'cccsaac']
 
 
 def main():
